@@ -92,9 +92,27 @@ def register(reg, ctx):
                 continue
             reg.contract(file, "%s.%s.setter" % (cls, prov), PROP, name='registration', sorts={"value": "ref:%s!" % prov.capitalize()}, externals=me,
                 ensures=[("registered_on_new_provider", registration_post(prov))])
+    # ------------------------------------------------------------------ container mutators and scene-graph hooks always notify
+    # (the dependents' caches are keyed on nothing: ANY replacement of a species / model, also of one with the same key, must be announced)
+    register_notifying_mutators(reg, PROP)
     # ------------------------------------------------------------------ _change resets the guards of the caches
     for file, cls, guard, empty in GUARDS:
         reg.contract(file, cls + "._change", PROP, name='guard', ensures=[("guard_emptied", empty)])
+
+
+NOTIFYING = [(PN, "Composition.set"), (PN, "Composition.add"), (PN, "Composition.clear"),
+             (PN, "ModelManager.set"), (PN, "ModelManager.add"), (PN, "ModelManager.clear"),
+             (BN, "ModelManager.set"), (BN, "ModelManager.add"), (BN, "ModelManager.clear"), (BN, "Beam._modified")]
+
+
+def register_notifying_mutators(reg, prop):
+    ext = dict(NOTIFY, **{'.__setitem__': {'kind': 'logged', 'result': 'none', 'label': 'setitem', 'doc': 'dict store'},
+                          'tuple': {'kind': 'pure', 'result': 'seq:ref', 'doc': 'tuple(iterable)'},
+                          'list': {'kind': 'pure', 'result': 'seq:ref', 'doc': 'list(iterable)'}})
+    for file, qual in NOTIFYING:
+        reg.contract(file, qual, prop, name='notifies', externals=ext, raises_any=["TypeError", "ValueError"],
+            loops={0: dict(invariant=[]), 1: dict(invariant=[])},
+            ensures=[("notifies_dependents", rebuilt_after_writes('notify', [], recv="self.notifier", name='coherence.%s.notify' % qual.split('.')[-1]))])
 
 
 GUARDS = [
@@ -300,3 +318,51 @@ print(json.dumps({"geometry_after_setter": g1, "geometry_after_explicit_rebuild"
     out = run_native(ctx, code)
     return {'confirmed': bool(out) and out.get('equal') is False, 'observed': out, 'input': m,
             'expected': 'bounding geometry already up to date after the setter'}
+
+
+def bounded_notifier(ctx):
+    """Bounded stand-in (NOT a proof) for the assumed Notifier contract (cherab/core/utility/notify.py: weak references, list mutated while
+    callbacks die - outside the verifier's subset): after arbitrary sequences of add / remove / drop-the-observer / notify, one notify() calls
+    every live registered callback exactly once, in any position relative to dead entries; dead entries are purged; add is idempotent."""
+    from replaylib.native import run_native
+    n = 300 if ctx['tier'] == 'quick' else 5000
+    code = '''
+import gc, random
+from cherab.core.utility.notify import Notifier
+rnd = random.Random(%d)
+bad = []; cases = 0
+class Obs:
+    def __init__(self, k): self.k = k; self.hits = 0
+    def cb(self): self.hits += 1
+for trial in range(%d):
+    nt = Notifier(); live = {}; registered = set(); k = 0
+    funcs = {}
+    for step in range(rnd.randint(3, 12)):
+        op = rnd.choice(("add", "add", "add", "remove", "drop", "notify", "addfn"))
+        if op == "add":
+            o = Obs(k); k += 1; live[o.k] = o; nt.add(o.cb); nt.add(o.cb); registered.add(o.k)
+        elif op == "addfn":
+            def f(box=[0]): box[0] += 1
+            f.box = f.__defaults__[0]; funcs[k] = f; nt.add(f); registered.add(("f", k)); k += 1
+        elif op == "remove" and live:
+            key = rnd.choice(sorted(live)); nt.remove(live[key].cb); registered.discard(key)
+        elif op == "drop" and live:
+            key = rnd.choice(sorted(live)); del live[key]; registered.discard(key); gc.collect()
+        elif op == "notify":
+            before = {key: o.hits for key, o in live.items()}; fb = {key: f.box[0] for key, f in funcs.items()}
+            nt.notify(); cases += 1
+            for key, o in live.items():
+                want = 1 if key in registered else 0
+                if o.hits - before[key] != want:
+                    bad.append({"trial": trial, "step": step, "observer": key, "registered": key in registered, "calls_in_one_notify": o.hits - before[key]})
+            for key, f in funcs.items():
+                if f.box[0] - fb[key] != 1:
+                    bad.append({"trial": trial, "step": step, "function_callback": key, "calls_in_one_notify": f.box[0] - fb[key]})
+print(json.dumps({"cases": cases, "bad": bad[:6]}))
+''' % (ctx['seed'] + 1, n)
+    out = run_native(ctx, code, timeout=600)
+    return {'name': 'Notifier: every live registered callback is called exactly once per notify() (BOUNDED stand-in, not counted as proved)',
+            'ok': bool(out) and out.get('bad') == [], 'detail': out, 'bound': '%d random add/remove/drop/notify histories of 3..12 steps, seed %d' % (n, ctx['seed'] + 1)}
+
+
+BOUNDED = [bounded_notifier]
